@@ -414,8 +414,12 @@ func (o *ovsdbClient) tryEndpoint(ctx context.Context, u *url.URL) (string, erro
 		}
 
 		db.modelMutex.Lock()
-		var errors []error
-		db.model, errors = model.NewDatabaseModel(schema, db.model.Client())
+		newModel, errors := model.NewDatabaseModel(schema, db.model.Client())
+		if len(errors) == 0 {
+			// (an endpoint whose schema does not fit leaves the model as
+			// it is, for the endpoints tried after it)
+			db.model = newModel
+		}
 		db.modelMutex.Unlock()
 		if len(errors) > 0 {
 			var combined []string
